@@ -244,24 +244,17 @@ def check_ref_from_slice(ctx, F, hty):
     rfb = "multiboot2_common::DynSizedStructure::<%s>::ref_from_bytes" % hty
     arg = ("arg", 1, "&[u8]")
 
-    def is_branch_of_tryfrom(t):
-        t = G.strip(t)
-        return (t[0] == "call" and "Try>::branch" in str(t[1]) and len(t[2]) == 1 and
-                G.strip(t[2][0])[0] == "call" and G.strip(t[2][0])[1] == tf and G.strip(t[2][0])[2] == (arg,))
+    TF = ("call", tf, (arg,))
     good = len(ex) == 2
-    res = [e for e in ex if G.strip(e.val)[0] == "call" and "from_residual" in str(G.strip(e.val)[1])]
-    cont = [e for e in ex if G.strip(e.val)[0] == "call" and G.strip(e.val)[1] == rfb]
+    res = [e for e in ex if e.kind == "Err"]
+    cont = [e for e in ex if G.N(e.val)[0] == "call" and G.N(e.val)[1] == rfb]
     g1 = g2 = False
     if len(res) == 1:
-        v = G.strip(res[0].val)
-        x = G.strip(v[2][0])
-        g1 = x[0] == "fld" and x[1][0] == "dc" and x[1][2] == 1 and is_branch_of_tryfrom(x[1][1])
-        # error type unchanged: FromResidual<Result<Infallible, E>> for Result<T, E> with the same E
-        g1 = g1 and "multiboot2_common::MemoryError>" in str(v[1]) and str(v[1]).count("multiboot2_common::MemoryError") == 2
+        # the error of try_from is returned unchanged (same error type: no conversion call survives inlining)
+        g1 = G.N(res[0].payload) == CH.payload_of(G.N(TF), 1) and CH.own_is_variant(res[0], G.N(TF), 1)
     if len(cont) == 1:
-        v = G.strip(cont[0].val)
-        x = G.strip(v[2][0])
-        g2 = x[0] == "fld" and x[1][0] == "dc" and x[1][2] == 0 and is_branch_of_tryfrom(x[1][1])
+        v = G.N(cont[0].val)
+        g2 = v[2] == (CH.payload_of(G.N(TF), 0),) and CH.guarded_by_variant(cont[0].facts, G.N(TF), 0)
     ctx.check(good and g1 and g2, "B5", lab,
               "ref_from_slice(bytes) = ref_from_bytes(BytesRef::try_from(bytes)?) with the error passed through unchanged",
               A.site(), how="exits: %s" % [G.show(e.val) for e in ex], why="exits: %s" % [G.show(e.val) for e in ex])
